@@ -6,7 +6,11 @@
      decode  {lo, hi}                      → model `decode` of every status word in [lo, hi)
      wait    {env, pid, timeout, start, fuel, nwait0?, obs?}        `_psposix.wait_pid`
      pwait   {env, pid, fuel, cached0?, calls:[{timeout, at, obs?}]} `Process.wait`, several calls
-     wprocs  {procs:[{pid, env, prewait?}], list, timeout, start, hasCb, flat, fuel, obs?}
+     wprocs  {procs:[{pid, env, prewait?}], list, timeout, start, hasCb, cb?, flat, fuel, obs?}
+             cb = "none" | "callable" | "bad" (overrides hasCb): the argument checks in front of the loops
+     popen   {env, pid, fuel, calls:[{timeout, at, ext?, obs?, oscalls?, rc?}]} `psutil.Popen.wait`, several
+             calls on one object; ext = returncode stored by subprocess's own poll() just before the call;
+             rc = {"v": returncode after the call} as observed on the implementation
    Every answer is {"model": …, "spec": …}: `spec` lists the Spec clauses violated by the model's
    observation and (when `obs` is supplied) by the implementation's observation. -/
 import PsutilModel.Base.Proto
@@ -102,11 +106,11 @@ def handleWait (j : Json) : R Json := do
   let clean := clean0 && decide (0 < pid) && !(negative timeout)
   let mobs : Spec.Obs := ⟨o, s.now, s.sleeps⟩
   let implV ← (optF asObs j "obs")
-  let implV := implV.map fun ob => Spec.violations ask ob clean
+  let implV := implV.map fun ob => Spec.violations ask ob clean ++ Spec.extraViolations ask ob
   return jObj [
     ("model", jObj [("out", jOutcome o), ("ret", jRat s.now), ("sleeps", jList jRat s.sleeps),
                     ("nwait", jNat (s.nWait - nwait0))]),
-    ("spec", specPart (Spec.violations ask mobs clean) implV)]
+    ("spec", specPart (Spec.violations ask mobs clean ++ Spec.extraViolations ask mobs) implV)]
 
 structure PCall where
   timeout : Option Rat
@@ -135,7 +139,7 @@ def runPCalls (env : Env) (clean0 : Bool) (fuel : Nat) :
         (if Spec.negativeIsValueError ask ob then [] else ["negativeIsValueError"]) ++
         (if negative c.timeout then [] else
           if Spec.cachedOk f ob c.at_ osCalls then [] else ["cached"])
-      | none => Spec.violations ask ob clean
+      | none => Spec.violations ask ob clean ++ Spec.extraViolations ask ob
     let mV := later firstM mobs (r.obj.nWait - p.nWait)
     let iV := c.obs.map fun ob => later firstI ob c.osCalls
     let isRes (o : Outcome) : Bool := match o with | .code _ | .none => true | _ => false
@@ -164,14 +168,95 @@ def handlePWait (j : Json) : R Json := do
   return jObj [("model", Json.arr (outs.map fun o => (o.getObjValD "model")).toArray),
                ("spec", Json.arr (outs.map fun o => (o.getObjValD "spec")).toArray)]
 
+structure QCall where
+  timeout : Option Rat
+  at_ : Rat
+  ext : Option Int
+  obs : Option Spec.Obs
+  osCalls : Nat
+  rc : Option (Option Int)
+
+def asQCall (j : Json) : R QCall := do
+  pure { timeout := ← optRatF j "timeout", at_ := ← ratF j "at", ext := ← optF asInt j "ext",
+         obs := ← optF asObs j "obs", osCalls := (← optF asNat j "oscalls").getD 0,
+         rc := ← optF asVal j "rc" }
+
+/-- `Popen.wait` calls in sequence on one object. `storedI` = the returncode the IMPLEMENTATION's
+    object was last seen to hold, `firstM/firstI` = the first result (None) a call gave. -/
+def runQCalls (env : Env) (clean0 : Bool) (fuel : Nat) :
+    List QCall → PopenObj → Option Int → Option Outcome → Option Outcome → List Json → List Json
+  | [], _, _, _, _, acc => acc.reverse
+  | c :: cs, q, storedI, firstM, firstI, acc =>
+    let q0 := match c.ext with | some v => q.extSet v | none => q
+    let storedI0 := match c.ext with | some v => some v | none => storedI
+    let r := popenWait cfg env c.timeout fuel c.at_ q0
+    let ask : Spec.Ask := ⟨env, q0.proc.pid, c.timeout, c.at_⟩
+    let clean := clean0 && decide (0 < q0.proc.pid) && !(negative c.timeout)
+    let mobs : Spec.Obs := ⟨r.out, r.now, r.sleeps⟩
+    let judge (stored : Option Int) (first : Option Outcome) (ob : Spec.Obs) (osCalls : Nat)
+        (rcAfter : Option (Option Int)) : List String :=
+      let negV := if Spec.negativeIsValueError ask ob then [] else ["negativeIsValueError"]
+      match stored with
+      | some v =>
+        negV ++ (if negative c.timeout then [] else
+                  if Spec.popenCachedOk v ob c.at_ osCalls then [] else ["popenCached"]) ++
+        (match rcAfter with
+         | some a => if a = some v then [] else ["popenStores"]
+         | none => [])
+      | none =>
+        (match first with
+         | some f => negV ++ (if negative c.timeout then [] else
+                               if Spec.cachedOk f ob c.at_ osCalls then [] else ["cached"])
+         | none => Spec.violations ask ob clean ++ Spec.extraViolations ask ob) ++
+        (match rcAfter with
+         | some a => if Spec.popenStoredOk ob a then [] else ["popenStores"]
+         | none => [])
+    let mV := judge q0.subRc firstM mobs (r.obj.proc.nWait - q0.proc.nWait) (some r.obj.subRc)
+    let iV := c.obs.map fun ob => judge storedI0 firstI ob c.osCalls c.rc
+    let isRes (o : Outcome) : Bool := match o with | .code _ | .none => true | _ => false
+    let firstM' := match firstM with | some f => some f | none => if isRes r.out then some r.out else none
+    let firstI' := match firstI, c.obs with
+      | some f, _ => some f
+      | none, some ob => if isRes ob.out then some ob.out else none
+      | none, none => none
+    let storedI' := match c.rc with | some a => a | none => storedI0
+    let ans := jObj [
+      ("model", jObj [("out", jOutcome r.out), ("ret", jRat r.now), ("sleeps", jList jRat r.sleeps),
+                      ("nwait", jNat (r.obj.proc.nWait - q0.proc.nWait)), ("rc", jVal r.obj.subRc)]),
+      ("spec", specPart mV iV)]
+    runQCalls env clean0 fuel cs r.obj storedI' firstM' firstI' (ans :: acc)
+
+def handlePopen (j : Json) : R Json := do
+  let envJ ← field j "env"
+  let env ← asEnv envJ
+  let clean0 ← eintrFree envJ
+  let pid ← natF j "pid"
+  let fuel ← natF j "fuel"
+  let calls ← listF asQCall j "calls"
+  let q : PopenObj := ⟨⟨pid, none, 0, none⟩, none⟩
+  let outs := runQCalls env clean0 fuel calls q none none none []
+  return jObj [("model", Json.arr (outs.map fun o => (o.getObjValD "model")).toArray),
+               ("spec", Json.arr (outs.map fun o => (o.getObjValD "spec")).toArray)]
+
 structure PSpec where
   pid : Nat
   env : Env
   prewait : Bool        -- `proc.wait(0)` was called on the object just before `wait_procs`
+  clean : Bool          -- no waitpid call on this PID is interrupted
 
 def asPSpec (j : Json) : R PSpec := do
-  pure { pid := ← natF j "pid", env := ← field j "env" >>= asEnv,
-         prewait := (← optF asBool j "prewait").getD false }
+  let envJ ← field j "env"
+  pure { pid := ← natF j "pid", env := ← asEnv envJ,
+         prewait := (← optF asBool j "prewait").getD false, clean := ← eintrFree envJ }
+
+def jWPErr : WPErr → Json
+  | .typeError => jObj [("kind", "exc"), ("exc", "TypeError")]
+  | .out o => jOutcome o
+
+def jRefusal : Option Spec.WPRefusal → Json
+  | none => Json.null
+  | some .valueError => "ValueError"
+  | some .typeError => "TypeError"
 
 /-- iteration order of a pass that starts after `k` calls of `proc.wait`: the order in which the
     implementation was seen to visit (flat list of all its calls), completed with the rest -/
@@ -200,6 +285,10 @@ def handleWProcs (j : Json) : R Json := do
   let timeout ← optRatF j "timeout"
   let start ← ratF j "start"
   let hasCb ← boolF j "hasCb"
+  let cbS := (← optF asStr j "cb").getD (if hasCb then "callable" else "none")
+  let cb ← (if cbS == "none" then pure Cb.absent else if cbS == "callable" then pure Cb.callable
+            else if cbS == "bad" then pure Cb.notCallable else .error s!"bad cb {cbS}")
+  let hasCb := cb != .absent
   let flat ← listF asNat j "flat"
   let fuel ← natF j "fuel"
   let dflt : Env := ⟨.neverExisted, none, fun _ => false⟩
@@ -214,11 +303,17 @@ def handleWProcs (j : Json) : R Json := do
   let w0 : WP := ⟨start, objs, [], [], [], []⟩
   let ask : Spec.WPAsk := ⟨envOf, lst, timeout, start, hasCb⟩
   let implV ← optF asWPObs j "obs"
-  let implV := implV.map fun ob => Spec.wpViolations ask ob
-  match waitProcs cfg envOf lst timeout hasCb (orderOf flat) fuel w0 with
+  let cleanOf : Nat → Bool := fun pid => match ps.find? (·.pid == pid) with
+    | some p => p.clean
+    | none => false
+  let implV := implV.map fun ob => Spec.wpViolations ask ob cleanOf
+  let refusal := Spec.wpRefusal timeout (cb != .absent) (cb == .callable)
+  let specJ (mV : List String) : Json :=
+    jObj [("model_violations", jStrs mV), ("impl_violations", jOpt jStrs implV), ("refusal", jRefusal refusal)]
+  match waitProcsFront cfg envOf lst timeout cb (orderOf flat) fuel w0 with
   | .error o =>
-    return jObj [("model", jObj [("kind", "raised"), ("out", jOutcome o)]),
-                 ("spec", specPart [] implV)]
+    return jObj [("model", jObj [("kind", "raised"), ("out", jWPErr o)]),
+                 ("spec", specJ [])]
   | .ok (w, alive) =>
     let pids := dedup lst
     let mobs : Spec.WPObs := ⟨w.gone, alive, fun p => (w.objs p).returncode, w.cbLog, w.now⟩
@@ -227,14 +322,17 @@ def handleWProcs (j : Json) : R Json := do
         ("returncodes", jList (fun p => Json.arr #[jNat p, jOptVal (w.objs p).returncode]) pids),
         ("cbLog", jList jNat w.cbLog), ("ret", jRat w.now), ("sleeps", jList jRat w.sleeps),
         ("calls", jList (fun c => Json.arr #[jNat c.1, jRat c.2]) w.calls)]),
-      ("spec", specPart (Spec.wpViolations ask mobs) implV)]
+      ("spec", specJ (Spec.wpViolations ask mobs cleanOf))]
 
 def handle (_ : Unit) (j : Json) : R (Unit × Json) := do
   let op ← strF j "op"
   if op == "cfg" then
     return ((), jObj [("i0", jRat cfg.i0), ("factor", jNat cfg.factor), ("cap", jRat cfg.cap),
       ("checkBeforeSleep", Json.bool cfg.checkBeforeSleep), ("deadlineGe", Json.bool cfg.deadlineGe),
-      ("validateNonNeg", Json.bool cfg.validateNonNeg), ("sliceN", jNat cfg.sliceN)])
+      ("validateNonNeg", Json.bool cfg.validateNonNeg), ("sliceN", jNat cfg.sliceN),
+      ("pidCheck", Json.bool cfg.pidCheck), ("cbCheck", Json.bool cfg.cbCheck),
+      ("popenRcFirst", Json.bool cfg.popenRcFirst), ("popenStoresRc", Json.bool cfg.popenStoresRc),
+      ("popenValidateFirst", Json.bool cfg.popenValidateFirst)])
   else if op == "causes" then
     return ((), jList (fun c => Json.arr #[jNat c.status, jInt c.value]) Spec.allCauses)
   else if op == "decode" then
@@ -244,6 +342,7 @@ def handle (_ : Unit) (j : Json) : R (Unit × Json) := do
   else if op == "wait" then return ((), ← handleWait j)
   else if op == "pwait" then return ((), ← handlePWait j)
   else if op == "wprocs" then return ((), ← handleWProcs j)
+  else if op == "popen" then return ((), ← handlePopen j)
   else .error s!"unknown op {op}"
 
 def main : IO Unit := Proto.run () (total handle)
